@@ -21,7 +21,7 @@ CAN = {">f4": ">f4", ">f8": ">f8", ">c8": ">c8", ">c16": ">c16", ">i2": ">i2",
        "complex64": "complex64", "complex128": "complex128", "clongdouble": "complex256"}
 REQ0 = {"Signal": None, "RadioSignal": None, "IntensitySignal": "float64", "FullStokesSignal": "float64",
         "BasebandSignal": "complex128", "DualPolarizationSignal": "complex128"}
-QK = ["pos", "zero", "neg", "nonScalar", "nonScalar1", "nonScalar11", "wrongUnit", "notQuantity"]
+QK = ["pos", "zero", "neg", "nan", "nonScalar", "nonScalar1", "nonScalar11", "wrongUnit", "notQuantity"]
 OPS = ["slice", "slice2", "fslice", "fast_len", "time_shift", "to_intensity", "to_stokes", "to_circular", "to_linear",
        "stokesI", "concat", "incoh", "coh", "freq_shift", "stft", "ufunc", "snippet", "like", "dask"]
 
@@ -80,11 +80,19 @@ class Prop(PropBase):
                         align=rng.choice(["bottom", "center", "top"]), pol=rng.choice(["linear", "circular"]))
             if rng.random() < 0.5:
                 k = rng.choice(["rate", "start", "meta", "cf", "bw", "align", "pol"])
-                args[k] = {"rate": rng.choice(QK + ["zero"]), "cf": rng.choice(QK), "bw": rng.choice(QK + ["zero", "zero"]),
+                args[k] = {"rate": rng.choice(QK + ["zero", "nan"]), "cf": rng.choice(QK), "bw": rng.choice(QK + ["zero", "zero", "nan", "nan"]),
                            "start": rng.choice(["arrayTime", "garbage", "number"]), "meta": "notMapping",
                            "align": rng.choice(["middle", "", "Center", "TOP"]),
                            "pol": rng.choice(["", "elliptical", "Linear"])}[k]
-            yield {"op": "new", "cls": cls, "shape": shape, "dtype": dtype, "dask": rng.random() < 0.3, "args": args}
+            # ... and, on the object if one results, one attribute assignment (valid or invalid value)
+            attr = rng.choice(["rate", "start", "meta", "cf", "bw", "align", "pol"])
+            kind = {"rate": rng.choice(QK + ["nan"]), "cf": rng.choice(QK), "bw": rng.choice(QK + ["nan"]),
+                    "start": rng.choice(["none", "scalarTime", "isoString", "arrayTime", "garbage", "number"]),
+                    "meta": rng.choice(["none", "dict", "pairs", "notMapping"]),
+                    "align": rng.choice(["bottom", "center", "top", "middle", "", "Center", "TOP"]),
+                    "pol": rng.choice(["linear", "circular", "", "elliptical", "Linear"])}[attr]
+            yield {"op": "new", "cls": cls, "shape": shape, "dtype": dtype, "dask": rng.random() < 0.3, "args": args,
+                   "assign": [attr, kind]}
         for _ in range(250 if quick else 6000):
             cls = rng.choice(sigs.CLASSES)
             ops = [rng.choice(OPS) for _ in range(rng.choice([1, 1, 2, 3, 4]))]
@@ -97,6 +105,7 @@ class Prop(PropBase):
         u, Time, np = self.u, self.Time, self.np
         if what in ("rate", "cf", "bw"):
             return {"pos": 2.5 * u.kHz if what != "cf" else 400 * u.MHz, "zero": 0 * u.Hz, "neg": -3 * u.MHz,
+                    "nan": float("nan") * u.MHz,      # a scalar frequency, but not a positive one
                     "nonScalar": np.array([1.0, 2.0]) * u.kHz, "nonScalar1": np.array([4.0]) * u.MHz,
                     "nonScalar11": np.array([[4.0]]) * u.MHz, "wrongUnit": 1 * u.s, "notQuantity": 5.0}[kind]
         if what == "start":
@@ -151,7 +160,20 @@ class Prop(PropBase):
                 return {"err": err_name(e), "safe": safe}
             d = self._describe(z)
             d["safe"] = safe
-            d["meta_is_copy"] = bool(z.meta is None or (isinstance(z.meta, dict) and z.meta is not kw["meta"]))
+            d["meta_is_copy"] = bool(z.meta is None or (isinstance(z.meta, dict) and z.meta is not kw.get("meta")))
+            if case.get("assign"):
+                attr, kind = case["assign"]
+                name = {"rate": "sample_rate", "start": "start_time", "meta": "meta", "cf": "center_freq", "bw": "chan_bw",
+                        "align": "freq_align", "pol": "pol_type"}[attr]
+                if hasattr(z, name) and not (sigs.is_complex(cls) and attr in ("rate", "bw")):
+                    # (rate / chan_bw of a baseband signal are tied to each other only at creation: not assigned here)
+                    try:
+                        setattr(z, name, self._val(kind, attr))
+                        d["assign"] = "ok"
+                    except Exception as e:
+                        d["assign"] = err_name(e)
+                    d["assign_inv"] = invariant.violations(z)
+                    d["assign_align"] = getattr(z, "freq_align", None)
             return {"ok": d}
         return self._run_ops(case)
 
@@ -321,7 +343,7 @@ class Prop(PropBase):
         if a["rate"] != "pos" or a["start"] in ("arrayTime", "garbage", "number") or a["meta"] == "notMapping":
             return False
         if cls != "Signal":
-            if a["cf"] not in ("pos", "zero", "neg") or a["align"] not in ("bottom", "center", "top"):
+            if a["cf"] not in ("pos", "zero", "neg", "nan") or a["align"] not in ("bottom", "center", "top"):
                 return False
             if not sigs.is_complex(cls) and a["bw"] != "pos":
                 return False
@@ -341,6 +363,17 @@ class Prop(PropBase):
                     return "an invalid construction yielded an object"
                 if not d["meta_is_copy"]:
                     return "meta stored without copying"
+                if "assign" in d:
+                    attr, kind = case["assign"]
+                    good = {"rate": kind == "pos", "bw": kind == "pos", "cf": kind in ("pos", "zero", "neg", "nan"),
+                            "start": kind in ("none", "scalarTime", "isoString"), "meta": kind in ("none", "dict", "pairs"),
+                            "align": kind in ("bottom", "center", "top"), "pol": kind in ("linear", "circular")}[attr]
+                    if d["assign_inv"]:
+                        return f"after assigning {attr} := {kind} the object violates its contract: {d['assign_inv']}"
+                    if good and d["assign"] != "ok":
+                        return f"assigning a valid {attr} ({kind}) raised {d['assign']}"
+                    if not good and d["assign"] != "ValueError":
+                        return f"assigning an invalid {attr} ({kind}) gave {d['assign']}, expected ValueError"
                 allowed = invariant.CONTRACT[case["cls"]]["dtypes"]
                 if allowed is not None and CAN[case["dtype"]] not in allowed and not d["safe"]:
                     return f"dtype {case['dtype']} cannot be cast safely to the class's dtype, yet an object was created"
